@@ -697,12 +697,22 @@ func CreateUpdateMsgFromPaths(pathList []*Path, options ...*bgp.MarshallingOptio
 	// Since sendMessageloop coalesces outgoing BGP UPDATE messages and
 	// the packers emit withdrawals before announcements, we should keep only the
 	// last action for each NLRI/path-id within one packing pass.
+	// The key must be the one the receiver uses: without ADD-PATH there is no
+	// path identifier on the wire, so paths of one prefix with different local
+	// identifiers are successive states of the same route.
+	keyOf := func(path *Path) PathLocalKey {
+		key := path.GetLocalKey()
+		if !bgp.IsAddPathEnabled(false, path.GetFamily(), options) {
+			key.Id = 0
+		}
+		return key
+	}
 	last := make(map[PathLocalKey]*Path, len(pathList))
 	for _, path := range pathList {
 		if path == nil || path.IsEOR() {
 			continue
 		}
-		last[path.GetLocalKey()] = path
+		last[keyOf(path)] = path
 	}
 
 	m := make(map[bgp.Family]packerInterface)
@@ -722,7 +732,7 @@ func CreateUpdateMsgFromPaths(pathList []*Path, options ...*bgp.MarshallingOptio
 			add(path)
 			continue
 		}
-		if last[path.GetLocalKey()] != path {
+		if last[keyOf(path)] != path {
 			continue
 		}
 		add(path)
